@@ -664,6 +664,29 @@ class SecretDocGen:
                     else:
                         doc["i"].append(twin)
                     self.secrets.append(node["secret"])
+        # an ANCHORED collection (kept only to be merged elsewhere) holding
+        # secrets one level down, under equal key names / indexes
+        if rng.random() < 0.15:
+            def sec():
+                node = self.secret_node()
+                return node
+            shared = {"t": "m", "a": "defaults", "i": [
+                [gd.S("users"), gd.L([gd.M([("name", gd.S("u1")),
+                                            ("pw", sec())]),
+                                      gd.M([("name", gd.S("u2")),
+                                            ("pw", sec())])])],
+                [gd.S("primary"), gd.M([("password", sec())])],
+                [gd.S("replica"), gd.M([("password", sec())])]]}
+            # always merged somewhere: ruamel only writes the anchor of a
+            # collection that is actually referenced
+            user = {"t": "m", "a": None, "merge": ["defaults"],
+                    "i": [[gd.S("extra"), gd.S("x")]]}
+            if doc["t"] == "m":
+                doc["i"].append([gd.S("defaults"), shared])
+                doc["i"].append([gd.S("prod"), user])
+            else:
+                doc["i"].append(shared)
+                doc["i"].append(user)
         # aliases to anchored secrets, placed later in document order
         for segs, node in planted:
             if not node.get("a"):
